@@ -127,6 +127,9 @@ pub fn run_property(p: &Property, opts: &RunOpts) -> RunResult {
         configs += rep.configs;
         all_exhaustive &= sc.exhaustive;
         let discards = rep.discard_total();
+        if let Some(n) = rep.discards.iter().find(|(k, _)| k.starts_with("HARNESS")).map(|(_, v)| *v) {
+            inconclusive.push(format!("{}: {} cases exhausted the draw vector (len {})", sc.name, n, sc.len));
+        }
         if rep.evaluations >= 200 && discards * 5 > rep.evaluations {
             inconclusive.push(format!(
                 "{}: discard rate {}/{} above 20% ({:?})",
